@@ -1445,3 +1445,5 @@ def run(res, facts, tier):
     c01_vars.run_cycle_rule(res, facts, tier)
     from . import c01_scope
     c01_scope.r14_balance(res, facts)
+    from . import c03_iter
+    c03_iter.run_rule(res, facts, tier)
